@@ -134,7 +134,9 @@ func (k Key) ValidateChannel(ch *Channel) bool {
 		if target == 1325880984 { // Key target was "#/" (1325880984 == hash(""))
 			return true
 		}
-		return target == ch.Target()
+		if len(ch.Query) > 0 && target == ch.Target() {
+			return true
+		}
 	}
 
 	// Trim right `/`
@@ -150,40 +152,51 @@ func (k Key) ValidateChannel(ch *Channel) bool {
 		parts = parts[0 : len(parts)-1]
 	}
 
-	maxDepth := 0
+	// The path only records the literal parts of the target, hence the position of the last literal
+	// is the minimum depth of the target; it is deeper if the target ends with wildcards (+).
+	minDepth := 0
 	for i := uint32(0); i < 23; i++ {
 		if ((targetPath >> i) & 1) == 1 {
-			maxDepth = 23 - int(i)
+			minDepth = 23 - int(i)
 			break
 		}
 	}
 
-	// If no depth defined, all the parts in key target were wildcards (+)
-	// We need to compare the key hash with the whole channel we received.
-	if maxDepth == 0 {
-		maxDepth = len(parts)
-	}
-
-	// Get the first bit, whether the key is the exact match or not
-	keyIsExactTarget := ((targetPath >> 23) & 1) == 1
-	if len(parts) < maxDepth || (keyIsExactTarget && len(parts) != maxDepth) {
+	if len(parts) < minDepth {
 		return false
 	}
 
+	// Get the first bit, whether the key is the exact match or not. An exact target has the depth
+	// of the channel and does not cover a multi-level wildcard (#) request.
+	if keyIsExactTarget := ((targetPath >> 23) & 1) == 1; keyIsExactTarget {
+		return !wc && k.matchTarget(parts, targetPath, target)
+	}
+
+	// Otherwise the target covers any channel of which it is a prefix (a target has at most 23 parts)
+	for depth := minDepth; depth <= len(parts) && depth <= 23; depth++ {
+		if k.matchTarget(parts[:depth], targetPath, target) {
+			return true
+		}
+	}
+	return false
+}
+
+// matchTarget checks whether the parts, with the ones the target has as wildcards replaced
+// by `+`, hash to the target. Wildcards in place of literal parts of the target are refused.
+func (k Key) matchTarget(parts []string, targetPath, target uint32) bool {
+	masked := make([]string, len(parts))
 	for idx, part := range parts {
 		if ((targetPath >> (22 - uint32(idx))) & 1) == 1 {
 			if part == "+" {
 				return false
 			}
+			masked[idx] = part
 		} else {
-			parts[idx] = "+"
+			masked[idx] = "+"
 		}
 	}
 
-	newChannel := strings.Join(parts[0:maxDepth], "/")
-
-	h := hash.OfString(newChannel)
-	return h == target
+	return hash.OfString(strings.Join(masked, "/")) == target
 }
 
 // SetTarget sets the target channel for the key.
